@@ -38,7 +38,8 @@ REQUIRED = {"linear_objects": 2000, "nonlinear_objects": 2000,
             "value_vectors": 20000, "problem_points": 1000}
 MIN_NONTRIVIAL = {"quick": 300, "thorough": 600}
 PLAN = [("lin1", 25, 25), ("lin2", 625, 625), ("nl1", 25, 25),
-        ("nl2", 625, 625), ("mix", 300, 6000), ("bounds", 100, 1000),
+        ("nl2", 625, 625), ("mix", 300, 6000), ("mixmag", 150, 2000),
+        ("near_eq", 100, 1500), ("bounds", 100, 1000),
         ("problem", 250, 4000)]
 EPS = np.finfo(float).eps
 KINDS = ("-inf", "fin", "eq", "+inf", "nan")
@@ -82,6 +83,9 @@ def values_for(rng, lb, ub):
         v = np.empty(m)
         for i in range(m):
             cands = [float(rng.uniform(-4, 4))]
+            if np.isfinite(lb[i]) and np.isfinite(ub[i]):
+                cands += [0.5 * (lb[i] + ub[i]),
+                          lb[i] + float(rng.random()) * (ub[i] - lb[i])]
             for lim in (lb[i], ub[i]):
                 if np.isfinite(lim):
                     cands += [lim, float(np.nextafter(lim, math.inf)),
@@ -145,14 +149,16 @@ def check_linear(rng, lbs, ubs, viols, counts, coeff_nan=False):
     lb_all = np.concatenate([np.asarray(l_, float) for l_ in lbs])
     ub_all = np.concatenate([np.asarray(u_, float) for u_ in ubs])
     # row counts (per object tolerance)
-    n_ub = n_eq = 0
+    n_ub = n_eq = zone = 0
     amb = False
     for lo, hi in zip(lbs, ubs):
         e = trans.expected(lo, hi, np.zeros(len(lo)))
         n_ub += e["n_ub"]
         n_eq += e["n_eq"]
+        zone += e["zone"]
         amb = amb or e["ambiguous"]
-    if (lc.a_ub.shape[0], lc.a_eq.shape[0]) != (n_ub, n_eq) and not amb:
+    if not amb and not trans.counts_ok(lc.a_ub.shape[0], lc.a_eq.shape[0],
+                                       n_ub, n_eq, zone):
         viols.append(V("linear_row_count",
                        f"limits lb={lbs} ub={ubs}: internal rows "
                        f"(ub={lc.a_ub.shape[0]}, eq={lc.a_eq.shape[0]}), "
@@ -163,6 +169,7 @@ def check_linear(rng, lbs, ubs, viols, counts, coeff_nan=False):
         want = 0.0
         alt = 0.0
         half = 0.0
+        scale = 1.0
         off = 0
         for lo, hi in zip(lbs, ubs):
             e = trans.expected(lo, hi, v[off:off + len(lo)])
@@ -170,8 +177,7 @@ def check_linear(rng, lbs, ubs, viols, counts, coeff_nan=False):
             want = max(want, e["viol"])
             alt = max(alt, e["viol_alt"])
             half = max(half, e["half"])
-        scale = max(1.0, float(np.max(np.abs(v))), *(abs(t) for t in
-                    np.concatenate([lb_all, ub_all]) if np.isfinite(t)))
+            scale = max(scale, e["scale"])
         if not (close(got, want, scale, half) or close(got, alt, scale, half)):
             viols.append(V("linear_violation",
                            f"linear limits lb={lbs} ub={ubs}, values "
@@ -228,7 +234,8 @@ def check_nonlinear(rng, lbs, ubs, viols, counts):
                            if c_ub.size else [])
                   + ([float(np.max(np.abs(c_eq)))] if c_eq.size else []))
         want = alt = half = 0.0
-        n_ub = n_eq = 0
+        scale = 1.0
+        n_ub = n_eq = zone = 0
         amb = False
         off = 0
         for lo, hi in zip(lbs, ubs):
@@ -237,18 +244,19 @@ def check_nonlinear(rng, lbs, ubs, viols, counts):
             want = max(want, e["viol"])
             alt = max(alt, e["viol_alt"])
             half = max(half, e["half"])
+            scale = max(scale, e["scale"])
             n_ub += e["n_ub"]
             n_eq += e["n_eq"]
+            zone += e["zone"]
             amb = amb or e["ambiguous"]
-        if first and not amb and (c_ub.size, c_eq.size) != (n_ub, n_eq):
+        if first and not amb and not trans.counts_ok(c_ub.size, c_eq.size,
+                                                     n_ub, n_eq, zone):
             viols.append(V("nonlinear_row_count",
                            f"limits lb={lbs} ub={ubs}: internal components "
                            f"(ub={c_ub.size}, eq={c_eq.size}), expected "
                            f"({n_ub}, {n_eq})", lb=lbs, ub=ubs))
             return
         first = False
-        scale = max(1.0, float(np.max(np.abs(v))), *(abs(t) for t in
-                    np.concatenate([lb_all, ub_all]) if np.isfinite(t)))
         if not (close(got, want, scale, half) or close(got, alt, scale, half)):
             viols.append(V("nonlinear_violation",
                            f"nonlinear limits lb={lbs} ub={ubs}, values "
@@ -313,6 +321,44 @@ def _run_case(case):
                      coeff_nan=bool(rng.random() < 0.2))
         check_nonlinear(rng, lbs, ubs, viols, counts)
         nt += keys
+    elif fam in ("mixmag", "near_eq"):
+        # (mixmag) a narrow two-sided component next to a sibling with huge
+        # limits in the SAME object: whether lb_i = ub_i "to rounding" is a
+        # matter of component i alone; (near_eq) limits that differ by
+        # 1e-15..1e-4 relative to their own magnitude
+        nobj = int(rng.integers(1, 3))
+        lbs, ubs = [], []
+        for _ in range(nobj):
+            m = int(rng.integers(2, 5))
+            lo = np.empty(m)
+            hi = np.empty(m)
+            for i in range(m):
+                r = rng.random()
+                if fam == "mixmag" and (i == 0 or r < 0.3):
+                    big = 10.0 ** rng.uniform(3, 15)
+                    k = int(rng.integers(4))
+                    lo[i], hi[i] = [(-big, big), (-math.inf, big),
+                                    (-big, math.inf),
+                                    (big, big * (1 + rng.uniform(0, 1)))][k]
+                elif fam == "mixmag":
+                    base = float(rng.choice([0.0, rng.uniform(-2, 2),
+                                             10.0 ** rng.uniform(-6, 0)]))
+                    gap = 10.0 ** rng.uniform(-11, -1)
+                    lo[i], hi[i] = base, base + gap
+                else:
+                    base = float(rng.choice([-1.0, 1.0])) * \
+                        10.0 ** rng.uniform(-3, 6)
+                    rel = 10.0 ** rng.uniform(-15.5, -4)
+                    lo[i], hi[i] = sorted((base, base * (1.0 + rel)))
+            lbs.append(lo.tolist())
+            ubs.append(hi.tolist())
+        # values: at / between / just outside the limits of each component
+        check_linear(rng, lbs, ubs, viols, counts)
+        check_nonlinear(rng, lbs, ubs, viols, counts)
+        nt.append(f"{fam}:objs{nobj}:m{'+'.join(str(len(t)) for t in lbs)}"
+                  f":{case['idx'] % 50}")
+        if case["idx"] < 2:
+            sample = {"family": fam, "example_limits": [lbs, ubs]}
     elif fam == "bounds":
         from scipy.optimize import Bounds
         from cobyqa.problem import BoundConstraints
@@ -386,7 +432,9 @@ def _run_case(case):
                        in bt.lin)
             tol = 64 * EPS * (float(np.max(lmag, initial=0.0))
                               + amax * sc * bt.n) + max(
-                0.5 * trans.tol_of(lc["lb"], lc["ub"]) for lc in bt.lin)
+                trans.expected(lc["lb"], lc["ub"],
+                               np.zeros(len(lc["lb"])))["half"]
+                for lc in bt.lin)
             counts["problem_points"] = counts.get("problem_points", 0) + 1
             err = abs(got - want)
             worst = max(worst, err / tol)
